@@ -476,7 +476,16 @@ class Interp:
         self.prog = prog
         self.self_cls = self_cls   # ClassInfo 'self' is analysed as
         self.unroll_const = unroll_const  # unroll loops over constant seqs
-        self.inline = inline or (lambda qn, depth: False)
+        user_inline = inline or (lambda qn, depth: False)
+        known = prog.known_funcs()
+
+        def _inline(qn, depth):
+            # functions the rules know by name are analysed as units; a
+            # function that did not exist when the rules were written (a
+            # helper extracted by a refactoring) is transparent
+            return user_inline(qn, depth) or (
+                known is not None and qn not in known and depth < 4)
+        self.inline = _inline
         self.max_paths = max_paths
         self.max_depth = max_depth
         self.fork_boolop = fork_boolop
@@ -827,18 +836,42 @@ class Interp:
             if exc is not None:
                 raises.append((s2, 'raise', exc))
                 continue
-            tv = self.decide(v, s2)
-            if tv is not None:
-                outs.append((s2, tv))
-            else:
-                a = s2
-                b = s2.copy()
-                self.assume(a, v, True)
-                self.assume(b, v, False)
-                outs.append((a, True))
-                outs.append((b, False))
-                self._count()
+            outs.extend(self._branch_term(v, s2))
         return outs, raises
+
+    def _branch_term(self, v, st):
+        """Outcomes of testing the truth of an already evaluated term.  A
+        stored `a and not b` (a flag computed before the `if`) is split into
+        the same atomic assumptions as the test written in place."""
+        k = kind(v)
+        if k == 'unop' and v[1] == 'not':
+            return [(s2, not b) for s2, b in self._branch_term(v[2], st)]
+        if k == 'boolop' and len(v[2]) >= 2:
+            is_and = v[1] == 'and'
+            outs = []
+            cur = [st]
+            for i, sub in enumerate(v[2]):
+                last = i == len(v[2]) - 1
+                nxt = []
+                for c in cur:
+                    for s2, b in self._branch_term(sub, c):
+                        if b != is_and:
+                            outs.append((s2, b))
+                        elif last:
+                            outs.append((s2, b))
+                        else:
+                            nxt.append(s2)
+                cur = nxt
+            return outs
+        tv = self.decide(v, st)
+        if tv is not None:
+            return [(st, tv)]
+        a = st
+        b = st.copy()
+        self.assume(a, v, True)
+        self.assume(b, v, False)
+        self._count()
+        return [(a, True), (b, False)]
 
     def decide(self, v, st):
         tv = truth(v, st)
@@ -1895,10 +1928,62 @@ class Interp:
                 continue
             t = ('comp', ckind, tuple(vals), tuple(iters), lid,
                  tuple(allconds))
+            folded = self._fold_comp(ckind, vals, iters, lid, allconds) \
+                if not inner.trace and len(n.generators) == 1 else None
+            if folded is not None:
+                out.append((s2, folded, None))
+                continue
             if inner.trace:
                 s2.emit(('comp', lid, inner.trace))
             out.append((s2, t, None))
         return out
+
+    @staticmethod
+    def _fold_comp(ckind, vals, iters, lid, conds):
+        """A comprehension over a small constant sequence whose element
+        expressions fold for every element is the constant it denotes
+        (`{n: b'\\0' * n for n in range(8)}`)."""
+        if ckind == 'gen':
+            return None
+        ok, seq = try_py(iters[0])
+        if not ok:
+            return None
+        try:
+            seq = list(seq)
+        except TypeError:
+            return None
+        if len(seq) > 64:
+            return None
+        elem = ('elem', iters[0], lid)
+        rows = []
+        for x in seq:
+            try:
+                cx = from_py(x)
+            except Exception:
+                return None
+            env = {elem: cx}
+            keep = True
+            for c in conds:
+                tv = truth(subst_fold(c, env))
+                if tv is None:
+                    return None
+                keep = keep and tv
+            if not keep:
+                continue
+            row = [subst_fold(v, env) for v in vals]
+            if not all(is_const(r) for r in row):
+                return None
+            rows.append(row)
+        try:
+            if ckind == 'list':
+                return from_py([r[0][1] for r in rows])
+            if ckind == 'set':
+                return from_py({r[0][1] for r in rows})
+            if ckind == 'dict':
+                return from_py({r[0][1]: r[1][1] for r in rows})
+        except Exception:
+            return None
+        return None
 
     def ex_ListComp(self, n, st):
         return self._comp(n, st, [n.elt], 'list')
